@@ -79,6 +79,9 @@ func genCase(c *kit.Ctx, i int) tcase {
 	t.PreXR = []string{"absent", "absent", "typed", "untyped", "own", "foreign"}[r.IntN(6)]
 	t.PreClaim = []string{"absent", "absent", "typed", "own", "foreign"}[r.IntN(5)]
 	t.Tamper = []string{"", "", "", "", "foreign", "same-name-other-uid"}[r.IntN(6)]
+	if t.Tamper == "" && r.IntN(5) == 0 {
+		t.Tamper = "orphaned" // the XR secret loses its owner references: nobody controls it
+	}
 	if t.Mode == "pipeline" {
 		t.Details, t.FirstStep = map[string]string{}, map[string]string{}
 		for _, k := range keyPool {
@@ -352,6 +355,9 @@ func (w *worker) run(i int, name string) {
 				ref = *own("XThing", "static-xr", "uid-of-an-earlier-incarnation")
 			}
 			u.SetOwnerReferences([]metav1.OwnerReference{ref})
+			if t.Tamper == "orphaned" {
+				u.SetOwnerReferences(nil)
+			}
 			_ = user.Update(ctx, u)
 		}
 	}
@@ -457,6 +463,11 @@ func (w *worker) run(i int, name string) {
 		if allowed(k) {
 			want[k] = v
 		}
+	}
+	if t.Tamper == "orphaned" {
+		// the XR controller adopts its orphaned secret again; only then is the state steady
+		_, _, _ = xe.Reconcile("static-xr")
+		_, _, _ = ce.Reconcile("ns1", "c1")
 	}
 	xrIdentical := reflect.DeepEqual(secretData(world.GetObj(xrSecretKey)), want) && world.GetObj(xrSecretKey) != nil
 	clIdentical := world.GetObj(clSecretKey) != nil && reflect.DeepEqual(secretData(world.GetObj(clSecretKey)), secretData(world.GetObj(xrSecretKey)))
@@ -698,10 +709,26 @@ func (w *worker) runSharedController(i int, name string) {
 	xrd := xrk.XRDObject(xrk.XRDOpts{Group: "ex.org", Kind: "XThing", Plural: "xthings"})
 	world.MustSeed("user", xrd)
 	base := nopObj("a")
+	// sameName: every XR's composed resource writes its secret under ONE name, each in the namespace
+	// of its own team (secrets are told apart by namespace only)
+	sameName := i%4 >= 2
+	cdSecret := func(n string) (string, string) {
+		if sameName {
+			return "team-" + n, "db-conn"
+		}
+		return xrSecretNS, "cd-" + n + "-conn"
+	}
+	refPatch := map[string]any{"type": "FromCompositeFieldPath", "fromFieldPath": "metadata.name", "toFieldPath": "spec.writeConnectionSecretToRef.name",
+		"transforms": []any{map[string]any{"type": "string", "string": map[string]any{"type": "Format", "fmt": "cd-%s-conn"}}}}
+	if sameName {
+		_ = unstructured.SetNestedField(base, "db-conn", "spec", "writeConnectionSecretToRef", "name")
+		refPatch = map[string]any{"type": "FromCompositeFieldPath", "fromFieldPath": "metadata.name", "toFieldPath": "spec.writeConnectionSecretToRef.namespace",
+			"transforms": []any{map[string]any{"type": "string", "string": map[string]any{"type": "Format", "fmt": "team-%s"}}}}
+		c.Count("shared_controller_same_secret_name_cases", 1)
+	}
 	world.MustSeed("user", xrk.ResourcesComposition("comp", "ex.org/v1", "XThing", []map[string]any{{
 		"name": "a", "base": base, "readinessChecks": []any{map[string]any{"type": "None"}},
-		"patches": []any{map[string]any{"type": "FromCompositeFieldPath", "fromFieldPath": "metadata.name", "toFieldPath": "spec.writeConnectionSecretToRef.name",
-			"transforms": []any{map[string]any{"type": "string", "string": map[string]any{"type": "Format", "fmt": "cd-%s-conn"}}}}},
+		"patches":           []any{refPatch},
 		"connectionDetails": []any{map[string]any{"name": "password", "type": "FromConnectionSecretKey", "fromConnectionSecretKey": "k"}},
 	}}))
 	if err := xrk.ReconcileComposition(world, "comp"); err != nil {
@@ -712,7 +739,8 @@ func (w *worker) runSharedController(i int, name string) {
 	for _, n := range names {
 		world.MustSeed("user", xrk.XRObject("ex.org/v1", "XThing", n, "comp", map[string]any{"writeConnectionSecretToRef": map[string]any{"name": n + "-secret", "namespace": xrSecretNS}}))
 		if have[n] {
-			_ = world.Client("provider").Create(ctx, mkSecret(xrSecretNS, "cd-"+n+"-conn", connType, map[string]string{"k": "secret-of-" + n}, nil))
+			sns, sn := cdSecret(n)
+			_ = world.Client("provider").Create(ctx, mkSecret(sns, sn, connType, map[string]string{"k": "secret-of-" + n}, nil))
 		}
 	}
 	xe := xrk.NewXREnv(world, xrk.XRDTyped(xrd))
@@ -747,7 +775,8 @@ func (w *worker) runSharedController(i int, name string) {
 		panic(err)
 	}
 	world.MustSeed("user", xrk.XRObject("ex.org/v1", "XThing", "xr-d", "comp", map[string]any{"writeConnectionSecretToRef": map[string]any{"name": "xr-d-secret", "namespace": xrSecretNS}}))
-	_ = world.Client("provider").Create(ctx, mkSecret(xrSecretNS, "cd-xr-d-conn", connType, map[string]string{"k": "secret-of-xr-d"}, nil))
+	dns, dn := cdSecret("xr-d")
+	_ = world.Client("provider").Create(ctx, mkSecret(dns, dn, connType, map[string]string{"k": "secret-of-xr-d"}, nil))
 	for k := 0; k < 3; k++ {
 		_, _, _ = xe.Reconcile("xr-d")
 	}
@@ -778,6 +807,7 @@ func main() {
 	c.Rule += " Shared controller: three XRs of the kind served in turn by ONE reconciler (one fetcher, one publisher); only some composed resources have published a connection secret; each XR secret holds only its own resource's values. A claim with the bound claim's name in another namespace referencing the XR gets no secret and does not rebind it. Provenance cases (both composers): XR details derived from the composed resources' connection secrets; a referenced resource is re-parented in place or recreated by another owner behind the XR controller's lagging cache and points at that owner's secret; neither the XR's nor the claim's secret may hold that owner's values."
 	c.Rule += " " + "The shared reconciler also serves an XR of an edited composition (secret keys of its own revision only)."
 	c.Rule += " " + "A foreign-controlled XR secret may appear behind the controllers' Secret cache."
+	c.Rule += " " + "The XR secret may lose its owner references (uncontrolled, connection-typed) before the claim copies; composed resources of several XRs whose secrets share one name in different namespaces."
 	c.Rule += " " + "A claim reconcile over a stale Secret cache (no rewrite gets through); rotating details republished right after the claim's copy."
 	c.Assumptions = []string{"sim stores typed Secrets as their JSON (base64 data)", "reference extraction follows the ConnectionDetail API documentation"}
 	c.Floor = 100
